@@ -98,8 +98,13 @@ class Degree(Domain):
 
     def fn(self, name, args, t):
         a = args[0] if args else Fraction(0)
-        if name in ('neg', 'abs', 'floor', 'ceil', 'round', 'trunc', 'fract'):
+        if name in ('neg', 'abs'):
             return a
+        if name in ('floor', 'ceil', 'round', 'trunc', 'fract', 'to_int'):
+            if a not in (POLY, Fraction(0), TOP):
+                self.complain('D-round', '%s of a quantity of degree %s: rounding to the integer grid is an absolute scale' % (name, a), t)
+                return TOP
+            return a if name != 'to_int' else Fraction(0)
         if name == 'sqrt':
             return a if a in (TOP, POLY) else a / 2
         if name == 'cbrt':
@@ -121,8 +126,16 @@ class Degree(Domain):
             return Fraction(0) if a != TOP else TOP
         if name == 'recip':
             return a if a in (TOP, POLY) else -a
-        if name in ('hypot', 'atan2', 'mul_add'):
-            return TOP
+        if name == 'hypot' and len(args) == 2:
+            return self.join(args[0], args[1], t, 'hypot mixes')
+        if name == 'mul_add' and len(args) == 3:
+            return self.add(self.mul(args[0], args[1], t), args[2], t)
+        if name == 'atan2' and len(args) == 2:
+            self.join(args[0], args[1], t, 'atan2 mixes')
+            return Fraction(0)
+        if name in ('to_degrees', 'to_radians'):
+            return a
+        self.complain('D-unknown-fn', 'function %s has no homogeneity rule' % name, t)
         return TOP
 
     def powi(self, a, k):
@@ -288,6 +301,8 @@ class TypeEval:
         if k in ('get', 'front', 'back'):
             return self.ty(t[1])
         if k == 'reduce':
+            if t[1] in ('max', 'min'):
+                return d.fn(t[1], [self.ty(t[2])], t)
             return self.ty(t[2])
         if k in ('push_back', 'push_front'):
             return d.join(self.ty(t[1]), self.ty(t[2]), t, 'stores together')
@@ -361,10 +376,17 @@ class TypeEval:
             for a in args:
                 self.ty(a)
             return d.int_()
-        if name in ('from_int', 'from_float') or name.startswith('cast:') or name.startswith('to_'):
-            for a in args:
-                self.ty(a)
-            return d.int_()
+        if name in ('from_float', 'to_f64', 'to_f32', 'cast:f64', 'cast:f32'):
+            # a change of float representation keeps the value: the type of the operand carries over
+            return self.tyb(args[0])
+        if name == 'from_int':
+            return self.tyb(args[0])
+        if (name.startswith('cast:') or name.startswith('to_')) and name not in ('to_degrees', 'to_radians'):
+            # conversion to an integer type: fine for integers, a rounding for floats
+            a = self.tyb(args[0])
+            if a == d.int_():
+                return a
+            return d.fn('to_int', [a], t)
         if name in ('iadd', 'isub', 'imul', 'idiv', 'irem', 'imax', 'imin', 'saturating_sub'):
             for a in args:
                 self.ty(a)
